@@ -101,6 +101,8 @@ class Builder:
             return complex(float(t[1]), float(t[2]))
         if k == "fr":
             return Fraction(int(t[1]), int(t[2]))
+        if k == "fs":
+            return frozenset(t[1])          # a frozenset of strings
         if k == "nstr":
             import numpy as np
             return np.str_(t[1])     # a str subclass instance (names taken from a numpy array)
